@@ -5,7 +5,9 @@
 # change: DETECTED / MISSED / ERROR. Never used for evidence.
 SECS=${1:-25}; shift
 IDS="$@"; [ -z "$IDS" ] && IDS=$(ls /verif/seeded)
-WT=/tmp/wt_regress_$$
+# (a fixed path: the Go build cache keys on file paths, so only the patched packages recompile)
+WT=/tmp/wt_regress
+git -C /repo worktree remove --force $WT 2>/dev/null
 git -C /repo worktree add -q --detach $WT HEAD || exit 2
 missed=0
 for id in $IDS; do
